@@ -146,7 +146,14 @@ func (j *jsonGen) encodeStr(s string) string {
 			fmt.Fprintf(&b, `\u%04x`, r)
 		case r > 0xffff && !j.noF16F21 && j.r.P(1, 2):
 			r1, r2 := utf16Surr(r)
-			fmt.Fprintf(&b, `\u%04x\u%04x`, r1, r2)
+			switch j.r.Intn(3) { // hex digits in either case
+			case 0:
+				fmt.Fprintf(&b, `\u%04X\u%04X`, r1, r2)
+			case 1:
+				fmt.Fprintf(&b, `\u%04X\u%04x`, r1, r2)
+			default:
+				fmt.Fprintf(&b, `\u%04x\u%04x`, r1, r2)
+			}
 		case r >= 0x80 && r <= 0xffff && j.r.P(1, 3):
 			if j.r.Bool() {
 				fmt.Fprintf(&b, `\u%04x`, r)
@@ -359,7 +366,7 @@ func genC17(g *Gen) {
 	// (2) JSON documents, compact and indented
 	jg := &jsonGen{r: r, noF16F21: true}
 	for i := 0; i < g.N; i++ {
-		jg.noF16F21 = !r.P(1, 20)
+		jg.noF16F21 = r.Bool() // (the escapes "\\/" and surrogate pairs: F16 and F21 are repaired)
 		indent := r.Bool()
 		v, t := jg.value(0, indent)
 		if indent {
